@@ -52,6 +52,8 @@ def cases(tier, seed):
         seen.add(e1.fv_id(n))
         for cl in CLASSES:
             out.append({"id": f"{e1.fv_id(n)}|{cl}", "fv": n, "cls": cl, "seed": seed})
+    # size letter: an always-true filter over two discrete states with 12 x 12 = 144 (> 2^7) combinations
+    out.append({"id": "large-144-combinations|true-filter", "large": True, "cls": "true-filter", "fv": dict(family.BASE), "seed": seed})
     return out
 
 
@@ -150,7 +152,42 @@ def _full_by_name(model, params, V):
     return r, [r.from_lcm_layout(np.asarray(v), t) for t, v in enumerate(V)]
 
 
+def _run_large(case):
+    src = (
+        "def utility(exper, tenure, wealth, work, cons):\n    return jnp.log(cons) + 0.011 * exper * (1 + work) + 0.007 * tenure * wealth - 0.3 * work + 0.0003 * exper * tenure\n\n"
+        "def next_exper(exper, work):\n    return jnp.clip(exper + work, 0, 11)\n\n"
+        "def next_tenure(tenure, work):\n    return jnp.where(work == 1, jnp.clip(tenure + 1, 0, 11), 0)\n\n"
+        "def next_wealth(wealth, cons, work):\n    return 0.9 * (wealth - 0.5 * cons) + 0.6 + 0.3 * work\n\n"
+        "def c_constraint(cons, wealth):\n    return cons <= wealth + 0.2371\n\n"
+        "def zz_true_filter(exper, tenure, work):\n    return exper + tenure + work >= 0\n"
+    )
+    states = [("exper", "D(12)"), ("tenure", "D(12)"), ("wealth", "Lin(1, 5, 4)")]
+    choices = [("work", "D(2)"), ("cons", "Lin(0.5, 2.0, 3)")]
+    base_funcs = ["utility", "next_exper", "next_tenure", "next_wealth", "c_constraint"]
+    viols, cnt = [], 0
+    try:
+        m0 = family.exec_model(family.assemble(3, src, states, choices, base_funcs))
+        m1 = family.exec_model(family.assemble(3, src, states, choices, base_funcs + ["zz_true_filter"]))
+        p0 = {"beta": 0.93, **{f: {} for f in base_funcs}}
+        p1 = {**p0, "zz_true_filter": {}}
+        V0, _, _ = e1.lcm_solve(m0, p0)
+        V1, _, _ = e1.lcm_solve(m1, p1)
+        r0, F0 = _full_by_name(m0, p0, V0)
+        r1, F1 = _full_by_name(m1, p1, V1)
+        for t in range(3):
+            ok = refmodel.close(F0[t], F1[t], 1e-12)
+            cnt += F0[t].size
+            if not ok.all():
+                viols.append(violation("equivalent-spec", "compare", "VALUE", f"always-true filter over (exper, tenure, work) with 144 state combinations: period {t}: {int((~ok).sum())} of {ok.size} states differ", period=t))
+                break
+    except Exception as e:
+        viols.append(violation("equivalent-spec", "solve", "EXC:" + type(e).__name__, str(e)[:300]))
+    return outcome(status="violation" if viols else "ok", violations=viols, states=cnt, transitions=6, traces=2, digest=digest(cnt, [np.asarray(v) for v in V0] if not viols else "x"))
+
+
 def run_case(case):
+    if case.get("large"):
+        return _run_large(case)
     b = e1.Built(case["fv"], case["seed"])
     params = b.params("perturbed", 0.95)
     _, R, why = e1.reference(b.model, params)
